@@ -125,31 +125,49 @@ func normMsg(s string) string {
 
 const wrMod = "github.com/benoitkugler/webrender/"
 
-// panicSite returns the innermost webrender function on the stack at the
-// moment of the panic (called from the deferred recover).
+// panicSite names the root of a panic: the innermost function on the panicking stack that belongs to
+// a Go module (the library under test or one of its dependencies), skipping the runtime and the
+// standard library. When that function is in a dependency, the innermost webrender caller is not part
+// of the identity (one dependency defect reached from many call sites is one root cause).
 func panicSite() string {
 	pcs := make([]uintptr, 128)
 	n := runtime.Callers(2, pcs)
 	frames := runtime.CallersFrames(pcs[:n])
 	seenPanic := false
-	first := ""
 	for {
 		f, more := frames.Next()
-		if strings.HasPrefix(f.Function, "runtime.gopanic") || strings.HasPrefix(f.Function, "runtime.panic") || strings.HasPrefix(f.Function, "runtime.sigpanic") || strings.HasPrefix(f.Function, "runtime.goPanic") {
+		fn := f.Function
+		if strings.HasPrefix(fn, "runtime.gopanic") || strings.HasPrefix(fn, "runtime.panic") || strings.HasPrefix(fn, "runtime.sigpanic") || strings.HasPrefix(fn, "runtime.goPanic") {
 			seenPanic = true
-		} else if seenPanic && strings.HasPrefix(f.Function, wrMod) {
-			return shortFunc(f.Function)
-		} else if seenPanic && first == "" && !strings.HasPrefix(f.Function, "runtime.") {
-			first = f.Function
+		} else if seenPanic {
+			if strings.HasPrefix(fn, wrMod) {
+				return shortFunc(fn)
+			}
+			if strings.HasPrefix(fn, "verif/harness/") {
+				return "harness:" + shortFunc(fn)
+			}
+			first := fn
+			if i := strings.Index(fn, "/"); i >= 0 {
+				first = fn[:i]
+			}
+			if strings.Contains(first, ".") && strings.Contains(fn, "/") { // a module path such as github.com/...
+				return "dep:" + shortDep(fn)
+			}
 		}
 		if !more {
 			break
 		}
 	}
-	if first != "" {
-		return "ext:" + shortFunc(first)
-	}
 	return "unknown"
+}
+
+func shortDep(f string) string {
+	f = reClosure.ReplaceAllString(f, ".func")
+	parts := strings.Split(f, "/")
+	if len(parts) > 2 {
+		parts = parts[len(parts)-2:]
+	}
+	return strings.Join(parts, "/")
 }
 
 var reClosure = regexp.MustCompile(`\.func[0-9]+(\.[0-9]+)*$`)
@@ -188,7 +206,7 @@ func RunGuarded(p *Prop, c interface{}) (v Verdict, hung bool) {
 		return v, false
 	case <-timer.C:
 		site := hangSite()
-		return Verdict{Sig: cleanSig("hang:" + site), Msg: "no return within " + p.CaseTimeout.String(), Crash: true}, true
+		return Verdict{Sig: cleanSig("hang:" + site), Msg: "no return within " + p.CaseTimeout.String() + " (stack stays inside " + LastHangDetail + ")", Crash: true}, true
 	}
 }
 
@@ -233,13 +251,29 @@ func hangSite() string {
 		}
 		time.Sleep(150 * time.Millisecond)
 	}
+	// The deepest common frame depends on sampling luck (slow recursive layouts look different at each
+	// sample), so the identity of a hang is only the package the work is stuck in; the function is
+	// reported in the message.
+	deepest := "unknown"
 	for i := len(common) - 1; i >= 0; i-- {
 		if strings.HasPrefix(common[i], wrMod) {
-			return shortFunc(common[i])
+			deepest = shortFunc(common[i])
+			break
 		}
 	}
-	return "unknown"
+	LastHangDetail = deepest
+	for _, pkg := range []string{"html/layout", "html/document", "html/boxes", "html/tree", "svg", "text", "css/"} {
+		for _, f := range common {
+			if strings.HasPrefix(f, wrMod+pkg) {
+				return strings.TrimSuffix(pkg, "/")
+			}
+		}
+	}
+	return deepest
 }
+
+// LastHangDetail is the deepest common webrender function seen by the last hangSite call.
+var LastHangDetail string
 
 var reFrame = regexp.MustCompile(`^([^\s(][^\n]*?)\((?:[^()]|\([^()]*\))*\)$`)
 
@@ -371,7 +405,8 @@ type Stats struct {
 	First       []Sample          `json:"first"`
 	MinHash     []Sample          `json:"minhash"`
 	Violations  []ViolationRec    `json:"violations"`
-	CrashCases  []ViolationRec    `json:"crash_cases"` // unlisted crashes met while evaluating a non-crash property
+	CrashCases  []ViolationRec    `json:"crash_cases"`
+	SigCounts   map[string]int    `json:"sig_counts"` // number of cases per violation signature (survey mode shows the spread) // unlisted crashes met while evaluating a non-crash property
 	Exhaustive  string            `json:"exhaustive,omitempty"`
 	Done        bool              `json:"done"`
 	NeedRestart bool              `json:"need_restart"`
@@ -380,7 +415,7 @@ type Stats struct {
 
 func NewStats(prop string) *Stats {
 	return &Stats{Property: prop, Labels: map[string]int{}, Excluded: map[string]int{}, KnownHits: map[string]int{},
-		KnownSigs: map[string]string{}, CrashNotes: map[string]int{}, nt: map[uint64]struct{}{}}
+		KnownSigs: map[string]string{}, CrashNotes: map[string]int{}, SigCounts: map[string]int{}, nt: map[uint64]struct{}{}}
 }
 
 func (s *Stats) Record(cj []byte, v Verdict) {
